@@ -122,6 +122,25 @@ def readouts(ctx, c, x, model, sig, what, full=True):
             ok = gerr is None and type(got) is C and len(got) == 1 and eq_arr(c, got.data[0], want, readout=True)
             ctx.judge('readout', ok, dict(sig, kind='index_wrong', op='getitem'),
                       lambda: '%s: x[%d] gives %s, the model gives %s' % (what(), i, repr(gerr) if gerr else '%s %s' % (type(got).__name__, core.short(getattr(got, 'data', got), 200)), core.short(want, 200)))
+        # the same integer as NumPy hands it out (np.argmin, np.arange, an element of an index array): a list takes any object
+        # with __index__
+        for ityp in ((np.int64, np.intp, np.int32) + ((np.uint8,) if i >= 0 else ()))[(i + n) % 2::2]:
+            j = ityp(i)
+            try:
+                wantj, werrj = model[j], None
+            except IndexError as e:
+                wantj, werrj = None, e
+            try:
+                gotj, gerrj = x[j], None
+            except Exception as e:
+                gotj, gerrj = None, e
+            if werrj is not None:
+                okj = isinstance(gerrj, IndexError)
+            else:
+                okj = gerrj is None and type(gotj) is C and len(gotj) == 1 and eq_arr(c, gotj.data[0], wantj, readout=True)
+            ctx.judge('readout', okj, dict(sig, kind='numpy_integer_index_wrong', op='getitem', itype=ityp.__name__),
+                      lambda: '%s: x[%s(%d)] on %d elements gives %s, a list gives %s' % (what(), ityp.__name__, i, n, repr(gerrj) if gerrj else '%s holding %s' % (
+                          type(gotj).__name__, core.short(getattr(gotj, 'data', gotj), 200)), repr(werrj) if werrj else core.short(wantj, 200)))
     # iteration
     try:
         its = [e for e in x]
